@@ -252,7 +252,7 @@ struct Inv {
 	int kind = K_DATE;
 	std::vector<std::string> ifmts;	/* the -i formats values are drawn from; empty = default parser */
 	size_t pos_at = 0;		/* index into fixed where the operands (durations, rounding targets) begin */
-	bool many_if = false, empty_mode = false, sed_default_forms = false, no_junk = false;
+	bool many_if = false, empty_mode = false, sed_default_forms = false, no_junk = false, day_gt12 = false;
 	bool full = true;		/* every value determines all fields */
 	bool has_base = false;
 	bool zone = false;
@@ -276,6 +276,9 @@ static inline std::string inv_value(Rng &r, const Inv &iv)
 		static const char *junk[] = {"foo", "", "2012-13-45", "99", "2012-02-30", "24:00:00", "T", "2012-01-01T", "0000-00-00", " ", "1e9", "31/02/2012", "Feb 30, 2012"};
 		return junk[r.below(sizeof(junk) / sizeof(*junk))];
 	}
+	/* day 20 or 30: it cannot be a month, and neither can what is left of it when the finder starts one digit later */
+	if (iv.day_gt12)
+		c.d = c.m != 2 && r.chance(1, 2) ? 30 : 20;
 	if (iv.ifmts.empty())
 		return default_value(c, iv.kind, r, iv.sed_default_forms);
 	const std::string &f = iv.ifmts[r.below(iv.ifmts.size())];
@@ -334,6 +337,7 @@ struct GenOpt {
 	size_t max_if = 3;		/* at most this many -i formats (0: default parser only) */
 	bool allow_sed = true;
 	bool allow_many_if = true;
+	bool sed_families = false;	/* now and then two formats sharing a needle character, values parse under exactly one */
 	bool one_line = false;		/* no %n in output formats (sed mode: one output line per input line) */
 	bool sed_default_forms = false;	/* format-less values only in the forms the sed-mode finder looks for */	/* now and then 8..40 -i formats (needle tables are sized from the count) */
 };
@@ -357,7 +361,17 @@ static inline Inv rand_inv(Rng &r, const GenOpt &go)
 		 * would swallow the duration or rounding target and the tool would not read stdin at all */
 		return (t == "dadd" || t == "dround") && (!strcmp(f, "%s") || !strcmp(f, "%d"));
 	};
-	if (nif >= 2 && go.max_if >= 2 && r.chance(1, 3)) {
+	if (go.sed_families && r.chance(1, 4)) {
+		/* (day/month swaps are not among them: the parsers take 0 for a month, so the finder reads `0/11/1908'
+		 * out of `30/11/1908' under %m/%d/%Y, which no choice of day avoids) */
+		static const char *const sf[][2] = {{"%d-%b-%Y", "%Y-%m-%d"}, {"%Y/%m/%d", "%d/%m/%Y"}, {"%d/%m/%Y", "%Y/%m/%d"}, {"%d %b %Y", "%b %d, %Y"},
+						    {"%b %d, %Y", "%d %b %Y"}, {"%Y-%m-%d", "%d-%b-%Y"}, {"%d-%m-%Y", "%Y-%m-%d"}, {"%Y-%m-%d", "%d-%m-%Y"}};
+		size_t k = r.below(sizeof(sf) / sizeof(*sf));
+		ifmts.push_back(sf[k][0]);
+		ifmts.push_back(sf[k][1]);
+		iv.kind = K_DATE;
+		iv.day_gt12 = true;	/* days that cannot be read as a month, whole or in part: one format only takes the value */
+	} else if (nif >= 2 && go.max_if >= 2 && r.chance(1, 3)) {
 		/* an overlapping family, in a seeded order */
 		const Fam &f = fams[r.below(sizeof(fams) / sizeof(*fams))];
 		std::vector<size_t> order;
